@@ -190,9 +190,9 @@ fn resolve(raw: &Raw) -> Case {
 						KKind::HeightLocked => k.lock as u64,
 						KKind::Nrd => 1 + (k.lock as u64 % grin_core::consensus::WEEK_HEIGHT),
 					},
-					// (an aggregate with two NRD kernels of one excess is refused by the NRD rule itself: shared
-					// excesses are for the other variants)
-					excess_tag: if kind == KKind::Nrd { 0 } else { k.tag as u32 },
+					// (an aggregate with two NRD kernels of one excess is refused by the NRD rule itself: at most one
+					// NRD kernel per shared excess, see below; it may share it with kernels of the other variants)
+					excess_tag: k.tag as u32,
 				}
 			})
 			.collect();
@@ -207,7 +207,10 @@ fn resolve(raw: &Raw) -> Case {
 			let same = |a: &KernelSpec, b: &KernelSpec| a.kind == b.kind && a.fee == b.fee && a.shift == b.shift && a.lock == b.lock && a.excess_tag == b.excess_tag;
 			let dup_here = (0..i).any(|j| same(&kernels[j], &kernels[i]));
 			let dup_before = txs.iter().any(|t: &TxSpec| t.kernels.iter().any(|o| same(o, &kernels[i])));
-			if dup_here || dup_before {
+			let nrd_twice = kernels[i].kind == KKind::Nrd
+				&& ((0..i).any(|j| kernels[j].kind == KKind::Nrd && kernels[j].excess_tag == kernels[i].excess_tag)
+					|| txs.iter().any(|t: &TxSpec| t.kernels.iter().any(|o| o.kind == KKind::Nrd && o.excess_tag == kernels[i].excess_tag)));
+			if dup_here || dup_before || nrd_twice {
 				kernels[i].excess_tag = 0;
 			}
 		}
